@@ -278,7 +278,8 @@ struct Endpoint {
     //! the messages of completely delivered frames, in order: what must the log show?
     void expect_delivery(const std::vector<MM> &msgs, const char *how) {
         absorb();
-        for (const MM &m : msgs) {
+        for (size_t mi = 0; mi < msgs.size(); ++mi) {
+            const MM &m = msgs[mi];
             if (g_stop) return;
             if (m.kind == 'Q') {
                 bool have = m.method == "echo" || m.method == "fail" || m.method == "later" || m.method == "relay";
@@ -296,7 +297,12 @@ struct Endpoint {
                 if (it == pending.end()) {
                     vh::counter(m.id_ok ? "response_for_unknown_or_finished_id_fed" : "response_with_non_int_id_fed");
                     // must be ignored. A callback that shows up here for the request whose id is this id cut to 32 bits is attributed to this message.
-                    if (m.id_wide && mark < log.size() && log[mark].t == Entry::CB && reqs[(size_t)log[mark].q].id == m.id_low) {
+                    if (m.id_wide && mark < log.size() && log[mark].t == Entry::CB && reqs[(size_t)log[mark].q].id == m.id_low && carries(log[mark], m)) {
+                        // ... unless a later message of this delivery legitimately answers that request with the very same content
+                        bool later_same = false;
+                        for (size_t k = mi + 1; k < msgs.size(); ++k)
+                            if ((msgs[k].kind == 'R' || msgs[k].kind == 'E') && msgs[k].id_ok && msgs[k].id == m.id_low) { later_same = carries(log[mark], msgs[k]); break; }
+                        if (later_same) continue;
                         bad("rpc/response/out-of-int-range-id-completes-a-request",
                             vh::fmt("%s %s: response with id %s (never issued) was taken for request#%d (id %d): %s", name.c_str(), how, m.id_text.c_str(), log[mark].q, m.id_low, log[mark].text().c_str()));
                         return;
@@ -336,6 +342,9 @@ struct Endpoint {
                     vh::fmt("%s %s: %s but no delivered response has the integer id %d of that request (delivered ids: %s)", name.c_str(), how, e.text().c_str(), r.id, ids_text(msgs).c_str()));
             } else bad("rpc/incoming-request/service-invoked-without-request", vh::fmt("%s %s: %s", name.c_str(), how, e.text().c_str()));
         }
+    }
+    static bool carries(const Entry &cb, const MM &m) {
+        return cb.errcode == (m.kind == 'R' ? 0 : m.errcode) && (m.kind != 'R' || same_json(cb.js, m.payload)) && (m.kind == 'R' || cb.js.is_null());
     }
     static std::string ids_text(const std::vector<MM> &msgs) {
         std::string o;
@@ -735,7 +744,7 @@ void pair_case(uint64_t, vh::Rng &r) {
             static const char *ms[] = {"echo", "later", "nope", "fail"};
             x->notify(r.pick(ms), gen.payload());
             x->absorb();
-        } else if (op < 64) {                               // deliver
+        } else if (op < 70) {                               // deliver
             size_t fl = x->in_flight_bytes();
             if (!fl) continue;
             size_t n;
@@ -755,7 +764,7 @@ void pair_case(uint64_t, vh::Rng &r) {
             }
             if (!g_stop) x->expect_delivery(done, how.c_str());
             if (!g_stop) check_responder(x, done, ob);
-        } else if (op < 78) {                               // answer an asynchronous request (maybe for the second time)
+        } else if (op < 86) {                               // answer an asynchronous request (maybe for the second time)
             if (x->jobs.empty()) continue;
             AsyncJob &j = x->jobs[(size_t)r.below(x->jobs.size())];
             if (j.answered >= 2) continue;
